@@ -750,3 +750,156 @@ def _instance_case(kind, mk):
 @contract("pendulum.datetime.DateTime.instance", props=["C01", "C05"])
 class dt_instance:
     cases = {k: _instance_case(k, mk) for k, mk in _foreign_kinds().items()}
+
+
+# ========================================================================================== start_of / end_of (C12)
+import z3 as _z3
+
+WEEK_START = _z3.Int("cfg_week_starts_at")   # pendulum._WEEK_STARTS_AT (process-wide setting: a symbolic parameter)
+WEEK_END = _z3.Int("cfg_week_ends_at")
+WEEK_CFG = And(sym.between(0, WEEK_START, 6), sym.between(0, WEEK_END, 6))
+UNITS = ("second", "minute", "hour", "day", "week", "month", "year", "decade", "century")
+
+
+def boundary_wall(x, unit, start):
+    """wall clock of the first (last) microsecond of the calendar unit that contains x's wall-clock fields"""
+    y, mo, d, h, mi, s, us = x.year, x.month, x.day, x.hour, x.minute, x.second, x.microsecond
+    lo = start
+    if unit == "second":
+        return spec.wall_us_f(y, mo, d, h, mi, s, 0 if lo else M - 1)
+    if unit == "minute":
+        return spec.wall_us_f(y, mo, d, h, mi, 0 if lo else 59, 0 if lo else M - 1)
+    if unit == "hour":
+        return spec.wall_us_f(y, mo, d, h, 0 if lo else 59, 0 if lo else 59, 0 if lo else M - 1)
+    t = (0, 0, 0, 0) if lo else (23, 59, 59, M - 1)
+    if unit == "day":
+        return spec.wall_us_f(y, mo, d, *t)
+    if unit == "week":
+        wd = spec.weekday0(y, mo, d)
+        o = spec.ordinal(y, mo, d)
+        o2 = sym.sub(o, sym.fmod(sym.sub(wd, WEEK_START), 7)) if lo else sym.add(o, sym.fmod(sym.sub(WEEK_END, wd), 7))
+        return sym.add(sym.mul(o2, DUS), spec.tod_us(*t))
+    if unit == "month":
+        return spec.wall_us_f(y, mo, 1 if lo else spec.dim(y, mo), *t)
+    if unit == "year":
+        return spec.wall_us_f(y, 1 if lo else 12, 1 if lo else 31, *t)
+    if unit == "decade":
+        y0 = sym.sub(y, sym.fmod(y, 10))
+        return spec.wall_us_f(y0 if lo else sym.add(y0, 9), 1 if lo else 12, 1 if lo else 31, *t)
+    if unit == "century":
+        y0 = sym.add(sym.sub(sym.sub(y, 1), sym.fmod(sym.sub(y, 1), 100)), 1)
+        return spec.wall_us_f(y0 if lo else sym.add(y0, 99), 1 if lo else 12, 1 if lo else 31, *t)
+    raise ValueError(unit)
+
+
+def _bound_contract(qualname, start):
+    def mkcase(unit, zname, mk):
+        class case:
+            def applies(self, unit, _u=unit, _z=zname):
+                return is_pdt(self) and unit == _u and _zone_kind(self) == _z
+
+            def args(F):
+                tz, zc = mk(F)
+                o, inv = fresh_pdt(F, tz)
+                return dict(self=o, unit=unit), [zc, inv, WEEK_CFG]
+
+            def requires(self, unit):
+                w = boundary_wall(self, unit, start)
+                r = [("boundary_representable", stdlib.in_dt_range(w))]
+                if unit == "week":
+                    r.append(("a_week_away_from_the_calendar_ends", sym.between(10, spec.date_ord(self), spec.MAXORD - 10)))
+                if self.tzinfo is not None:
+                    r.append(("normalised_boundary_representable", stdlib.in_dt_range(zones.normalised(self.tzinfo, w, self.fold)[0])))
+                return r
+
+            def result(F, self, unit):
+                o, _ = stdlib.fresh_datetime(F, self.cls, "bound", tzinfo=self.tzinfo)
+                return o
+
+            def ensures(result, self, unit):
+                w = boundary_wall(self, unit, start)
+                out = [("valid_fields", stdlib.valid_dt(result)), ("class_and_zone_kept", result.cls is self.cls and zones.same_zone(result.tzinfo, self.tzinfo))]
+                if self.tzinfo is None:
+                    return out + [("boundary_of_the_unit", eq(spec.wall_us(result), w))]
+                w2, f2 = zones.normalised(self.tzinfo, w, self.fold)
+                return out + [("boundary_of_the_unit_normalised_with_the_instance_fold", eq(spec.wall_us(result), w2)),
+                              ("valid_local_time", zones.is_rendering(result))]
+
+        return case
+
+    cases = {}
+    for unit in UNITS:
+        for zname, mk in zone_cases().items():
+            if unit == "week" and zname == "zone":
+                continue  # goes through previous()/next(): proved for naive and fixed offsets, bounded for zones
+            cases[f"{unit}.{zname}"] = mkcase(unit, zname, mk)
+    ns = type("bound", (), {"cases": cases})
+    contract(qualname, props=["C12", "C16"])(ns)
+
+
+def is_pdt(x):
+    return isinstance(x, Obj) and issubclass(x.cls, DateTime)
+
+
+_bound_contract("pendulum.datetime.DateTime.start_of", True)
+_bound_contract("pendulum.datetime.DateTime.end_of", False)
+
+transparent(*[f"pendulum.datetime.DateTime._{p}_of_{u}" for p in ("start", "end") for u in UNITS],
+            why="one-line helper of start_of/end_of: its real body is re-executed inside the contracted dispatcher")
+
+
+# ========================================================================================== weekday navigation on DateTime (C16)
+from contracts.date import dist_next, dist_prev
+
+
+def _dt_nav_contract(qualname, sign):
+    dist = dist_next if sign > 0 else dist_prev
+
+    def tod(x):
+        return spec.tod_us(x.hour, x.minute, x.second, x.microsecond)
+
+    def _inv(e, en, a):
+        j = sym.mul(sym.sub(spec.date_ord(e.dt), spec.date_ord(a.self)), sign)
+        keep = a.keep_time
+        return [("steps", And(ge(j, 1), le(j, dist(a.self, e.day_of_week)))), ("valid", stdlib.valid_dt(e.dt)),
+                ("weekday_argument", And(eq(e.day_of_week, a.day_of_week), sym.between(0, e.day_of_week, 6))),
+                ("time_of_day", eq(tod(e.dt), If(keep, tod(a.self), 0))),
+                ("class_and_zone", e.dt.cls is a.self.cls and zones.same_zone(e.dt.tzinfo, a.self.tzinfo))]
+
+    def mkcase(zname, mk):
+        class case:
+            def applies(self, day_of_week=None, keep_time=False, _z=zname):
+                return is_pdt(self) and day_of_week is not None and _zone_kind(self) == _z
+
+            def args(F):
+                tz, zc = mk(F)
+                o, inv = fresh_pdt(F, tz)
+                return dict(self=o, day_of_week=F.int("day_of_week"), keep_time=F.bool("keep_time")), [zc, inv]
+
+            def requires(self, day_of_week, keep_time):
+                o = sym.add(spec.date_ord(self), sym.mul(8, sign))
+                return [("within_the_calendar", And(ge(o, 2), le(o, spec.MAXORD - 1)))]
+
+            raises = [(ValueError, "invalid_weekday", lambda self, day_of_week, keep_time: Not(sym.between(0, day_of_week, 6)))]
+
+            def result(F, self, day_of_week, keep_time):
+                o, _ = stdlib.fresh_datetime(F, self.cls, "nav", tzinfo=self.tzinfo)
+                return o
+
+            def ensures(result, self, day_of_week, keep_time):
+                return [("valid_fields", stdlib.valid_dt(result)), ("class_and_zone_kept", result.cls is self.cls and zones.same_zone(result.tzinfo, self.tzinfo)),
+                        ("falls_on_the_weekday", eq(spec.weekday0(result.year, result.month, result.day), day_of_week)),
+                        ("nearest_strictly_later_or_earlier_1_to_7_days", eq(spec.date_ord(result), sym.add(spec.date_ord(self), sym.mul(dist(self, day_of_week), sign)))),
+                        ("at_midnight_unless_keep_time", eq(tod(result), If(keep_time, tod(self), 0)))]
+
+            loops = {0: Loop(_inv, variant=lambda e, en, a: sym.sub(dist(a.self, e.day_of_week), sym.mul(sym.sub(spec.date_ord(e.dt), spec.date_ord(a.self)), sign)))}
+
+        return case
+
+    cases = {z_: mkcase(z_, mk) for z_, mk in zone_cases().items() if z_ in ("naive", "fixed")}
+    ns = type("nav", (), {"cases": cases})
+    contract(qualname, props=["C16", "C12"])(ns)
+
+
+_dt_nav_contract("pendulum.datetime.DateTime.next", 1)
+_dt_nav_contract("pendulum.datetime.DateTime.previous", -1)
